@@ -39,6 +39,19 @@ impl<'a> ExpressionReducer for UndefinedFunctionReducer<'a> {
                 name,
                 self.visit_expressions(args)?,
             )),
+            // an undefined function can also hide in parentheses,
+            // in the subscripts of an array element and under a property
+            Expression::Parenthesis(child) => Ok(Expression::Parenthesis(Box::new(
+                self.visit_expression_pos(*child)?,
+            ))),
+            Expression::ArrayElement(name, indices, variable_info) => Ok(
+                Expression::ArrayElement(name, self.visit_expressions(indices)?, variable_info),
+            ),
+            Expression::Property(left, name, expression_type) => Ok(Expression::Property(
+                Box::new(self.visit_expression(*left)?),
+                name,
+                expression_type,
+            )),
             _ => Ok(expression),
         }
     }
